@@ -189,7 +189,18 @@ func genC01(g *Gen) {
 		g.someModes("Sub", y, x, 2)
 		g.someModes("Add", x, y.Neg(), 2)
 	})
-	g.pairGrid(0.18, func(x, y d128.Decimal) { g.someModes(g.addSubOp(), x, y, 2) })
+	g.relGrid(0.1, func(x, y d128.Decimal, kind string) {
+		if kind == "top" || kind == "bottom" {
+			g.allModes(g.addSubOp(), x, y)
+			return
+		}
+		g.someModes("Add", x, y, 2)
+		g.someModes("Sub", x, y, 2)
+		g.someModes(g.addSubOp(), y, x, 1)
+	})
+	g.resultWordGrid(0.08, "add")
+	g.subTwoLevelGrid(0.08)
+	g.pairGrid(0.14, func(x, y d128.Decimal) { g.someModes(g.addSubOp(), x, y, 2) })
 	g.vanishGrid(0.1, func(x, y d128.Decimal) {
 		if g.r.Intn(2) == 0 {
 			x, y = y, x
@@ -197,7 +208,7 @@ func genC01(g *Gen) {
 		g.someModes(g.addSubOp(), x, y, 2)
 	})
 	for !g.w.full() {
-		switch g.r.Intn(11) {
+		switch g.r.Intn(12) {
 		case 11:
 			x, y := g.topValue(), g.topValue()
 			if g.r.Intn(2) == 0 {
@@ -319,14 +330,53 @@ func genC02(g *Gen) {
 	// quotients whose inexactness hides eight or more zeros below the guard digit
 	g.gridRun(4*2*3, 0.03, func(i int) {
 		for try := 0; try < 20; try++ {
-			if a, b, ok := g.ratFarSticky([]int{0, 4, 5, 9}[i%4]); ok {
+			if a, b, ok := g.ratFarStickySigned([]int{0, 4, 5, 9}[i%4], i/8 == 1); ok {
+				g.allModes("Quo", mk((i/4)%2 == 1, a, g.r.Intn(41)-20), mk(g.r.Intn(2) == 0, b, g.r.Intn(41)-20))
+				return
+			}
+		}
+	})
+	// the same with both coefficients multiples of 2^64 (2^32, 2^16): every remainder of the long division then has a zero
+	// low word, and the inexactness rests on the remaining words alone
+	g.gridRun(4*2*3, 0.03, func(i int) {
+		sh := []uint{64, 32, 64}[i/8]
+		limit := new(big.Int).Rsh(cMax, sh)
+		if limit.Cmp(pow10(29)) > 0 {
+			limit = pow10(29)
+		}
+		for try := 0; try < 40; try++ {
+			if a, b, ok := g.ratFarStickySmall([]int{0, 4, 5, 9}[i%4], limit); ok {
+				a.Lsh(a, sh)
+				b.Lsh(b, sh)
+				if a.Cmp(cMax) > 0 || b.Cmp(cMax) > 0 {
+					continue
+				}
+				gridHits["quoWordRem"]++
 				g.allModes("Quo", mk((i/4)%2 == 1, a, g.r.Intn(41)-20), mk(g.r.Intn(2) == 0, b, g.r.Intn(41)-20))
 				return
 			}
 		}
 	})
 	g.quoGrid(0.1)
-	g.pairGrid(0.2, func(x, y d128.Decimal) { g.someModes([]string{"Mul", "Quo"}[g.r.Intn(2)], x, y, 2) })
+	g.relGrid(0.08, func(x, y d128.Decimal, kind string) {
+		switch kind {
+		case "topmul", "bottommul", "expsum":
+			g.allModes("Mul", x, y)
+		case "bottomquo", "expdiff":
+			g.allModes("Quo", x, y)
+		default:
+			g.someModes("Mul", x, y, 2)
+			g.someModes("Quo", x, y, 2)
+			g.someModes("Quo", y, x, 1)
+		}
+	})
+	g.resultWordGrid(0.06, "mul")
+	g.resultWordGrid(0.05, "quo")
+	g.prodWordGrid(0.03, func(x, y d128.Decimal) {
+		g.allModes("Mul", x, y)
+		g.someModes("Mul", y, x, 1)
+	})
+	g.pairGrid(0.12, func(x, y d128.Decimal) { g.someModes([]string{"Mul", "Quo"}[g.r.Intn(2)], x, y, 2) })
 	for !g.w.full() {
 		switch g.r.Intn(18) {
 		case 16:
